@@ -790,6 +790,13 @@ def rule_X4(ctx, info):
               "the remaining total of sample %s becomes %s, not (total - the index just given to the child)" % (show(tot.args[1]), show(tot.args[2])), construct=Q, stmt="total decrement")
     order_ok = ex.events.index(fill) < ex.events.index(tot)
     ctx.check(order_ok, "X4", "_set_max_assignment: pointer read before the decrement", f.where(tot.node), "the total is decremented before the pointer is read", construct=Q, stmt="read before decrement")
+    # the decrement happens for every sample: it sits in the same (innermost) sample loop as the pointer read
+    pm0 = parents(f.node)
+    tot_loops = [a for a in ancestors(tot.node, pm0) if isinstance(a, (ast.For, ast.While))]
+    fill_loops = [a for a in ancestors(fill.node, pm0) if isinstance(a, (ast.For, ast.While))]
+    same_loop = bool(tot_loops) and bool(fill_loops) and tot_loops[0] is fill_loops[0] and len(tot_loops) == len(fill_loops)
+    ctx.check(same_loop, "X4", "_set_max_assignment: the total is decremented inside the sample loop (for every sample)", f.where(tot.node),
+              "the decrement of the remaining total is not in the loop over samples that reads the pointer: only one sample's total is reduced, the siblings in the other samples are read at the parent's full total", construct=Q, stmt="decrement per sample")
     # recursion
     rec = ex.calls("_set_max_assignment")
     ok = len(rec) == 1 and len(rec[0].args) == 3 and vkey(rec[0].args[0]) == vkey(P(0)) and vkey(rec[0].args[1]) == vkey(reset.args[2]) and vkey(rec[0].args[2]) == vkey(child)
